@@ -73,6 +73,10 @@ def main(argv):
         traceback.print_exc()
         print("%s: harness error (not a verdict)" % pid)
         return 2
+    except SystemExit as e:
+        # a fail-closed translator or probe refused the current source
+        ck.unproved("the check could not be carried out against the current implementation: %s" % (e,),
+                    {"exit": str(e)})
     except Exception:
         # The harness itself never raises on the unchanged tree; an exception
         # here means the implementation no longer behaves in a way the check
